@@ -15,6 +15,9 @@ fn tables(logn: u32, p: u64) -> Result<NTTTables, String> {
     NTTTables::new(logn as usize, &m).map_err(|e| e.to_string())
 }
 
+/// an output buffer that was used before (values above every modulus): a routine has to overwrite all of it
+fn junk(len: usize) -> Vec<u64> { (0..len as u64).map(|i| u64::MAX - 3 * i).collect() }
+
 /// psi^(2*bitrev(i)+1) exponents
 fn eval_exponent(i: usize, logn: u32) -> u64 { 2 * rm::bitrev(i, logn) as u64 + 1 }
 
@@ -158,7 +161,7 @@ fn vec_oracle(c: &VecCase) -> Verdict {
     let mut fb = c.b.clone(); pm::ntt(&mut fb, &t);
     let mut fa2 = c.a.clone(); pm::ntt(&mut fa2, &t);
     check!(fa2 == fa, "polysmallmod::ntt differs from NTTTables::ntt_negacyclic_harvey");
-    let mut prod = vec![0u64; n];
+    let mut prod = junk(n);
     pm::dyadic_product(&fa, &fb, &m, &mut prod);
     for i in 0..n { if prod[i] != rm::mulmod(fa[i], fb[i], p) { return fail(format!("dyadic_product[{i}]: {}*{} mod {p} = {}", fa[i], fb[i], prod[i])); } }
     let mut prod2 = fa.clone(); pm::dyadic_product_inplace(&mut prod2, &fb, &m);
@@ -169,9 +172,9 @@ fn vec_oracle(c: &VecCase) -> Verdict {
     evals += 4;
     // negacyclic shift / monomial multiplication
     let s = (c.shift as usize) % (2 * n);
-    let mut sh = vec![0u64; n]; pm::negacyclic_shift(&c.a, s, &m, &mut sh);
+    let mut sh = junk(n); pm::negacyclic_shift(&c.a, s, &m, &mut sh);
     check!(sh == rm::negacyclic_shift(&c.a, s, p), "negacyclic_shift by {s} (N={n}, q={p})");
-    let mut mo = vec![0u64; n]; pm::negacyclic_multiply_mononomial(&c.a, c.mono, s, &m, &mut mo);
+    let mut mo = junk(n); pm::negacyclic_multiply_mononomial(&c.a, c.mono, s, &m, &mut mo);
     let want_mo: Vec<u64> = rm::negacyclic_shift(&c.a, s, p).iter().map(|x| rm::mulmod(*x, c.mono, p)).collect();
     check!(mo == want_mo, "negacyclic_multiply_mononomial coeff {} exponent {s} (N={n}, q={p})", c.mono);
     let mut mo2 = c.a.clone(); pm::negacyclic_multiply_mononomial_inplace(&mut mo2, c.mono, s, &m);
@@ -215,7 +218,7 @@ fn poly_oracle(c: &PolyCase) -> Verdict {
         ts[j].ntt_negacyclic_harvey(&mut comp);
         check!(comp[..] == f[j * n..(j + 1) * n], "ntt_p component {j} differs from the single-modulus transform (primes {:?})", c.primes);
     }
-    let mut sq = vec![0u64; n * k];
+    let mut sq = junk(n * k);
     pm::dyadic_product_p(&f, &f, n, &moduli, &mut sq);
     pm::intt_p(&mut sq, n, &ts);
     for j in 0..k {
@@ -232,10 +235,10 @@ fn poly_oracle(c: &PolyCase) -> Verdict {
         let polys: Vec<u64> = (0..pc).flat_map(|i| c.data.iter().enumerate().map(move |(x, v)| (*v, x, i))).map(|(v, x, i)| (v + i as u64 * 7) % c.primes[x / n]).collect();
         let comp = |v: &[u64], i: usize, j: usize| v[i * d + j * n..i * d + (j + 1) * n].to_vec();
         let mut fwd = polys.clone(); pm::ntt_ps(&mut fwd, pc, n, &ts);
-        let mut dy = vec![0u64; pc * d]; pm::dyadic_product_ps(&fwd, &fwd, pc, n, &moduli, &mut dy);
+        let mut dy = junk(pc * d); pm::dyadic_product_ps(&fwd, &fwd, pc, n, &moduli, &mut dy);
         let mut dyi = fwd.clone(); pm::dyadic_product_inplace_ps(&mut dyi, &fwd, pc, n, &moduli);
-        let mut sh = vec![0u64; pc * d]; pm::negacyclic_shift_ps(&polys, shift, pc, n, &moduli, &mut sh);
-        let mut mo = vec![0u64; pc * d]; pm::negacyclic_multiply_mononomial_ps(&polys, mono, shift, pc, n, &moduli, &mut mo);
+        let mut sh = junk(pc * d); pm::negacyclic_shift_ps(&polys, shift, pc, n, &moduli, &mut sh);
+        let mut mo = junk(pc * d); pm::negacyclic_multiply_mononomial_ps(&polys, mono, shift, pc, n, &moduli, &mut mo);
         let mut moi = polys.clone(); pm::negacyclic_multiply_mononomial_inplace_ps(&mut moi, mono, shift, pc, n, &moduli);
         let mut back2 = fwd.clone(); pm::intt_ps(&mut back2, pc, n, &ts);
         check!(back2 == polys, "intt_ps(ntt_ps(a)) != a for {pc} polynomials over {k} moduli");
